@@ -6,7 +6,7 @@
    property theorems are ABOUT (opsR). *)
 From Coq Require Import List QArith Qreals Reals.
 From FDAV Require Import Base.Num Base.Vec Base.Quad Model.Stats Model.Ufpca Model.Scores Model.Pspline
-  Model.Basis Model.Repr Model.Mfpca Model.LocalPoly.
+  Model.Basis Model.Repr Model.Mfpca Model.LocalPoly Model.Simpson.
 From Param Require Import Param.
 Import ListNotations.
 
@@ -18,6 +18,9 @@ Proof. reflexivity. Qed.
 
 Theorem trapz_transfer x y : Q2R (trapz opsQ x y) = trapz opsR (vQ2R x) (vQ2R y).
 Proof. exact (trapz_R Q R QR opsQ opsR opsQR x _ (list_QR x) y _ (list_QR y)). Qed.
+
+Theorem simpson_transfer x y : Q2R (simpson opsQ x y) = simpson opsR (vQ2R x) (vQ2R y).
+Proof. exact (simpson_R Q R QR opsQ opsR opsQR x _ (list_QR x) y _ (list_QR y)). Qed.
 
 Theorem trapz_w_transfer x : vQ2R (trapz_w opsQ x) = trapz_w opsR (vQ2R x).
 Proof. symmetry. apply list_QR_inv. exact (trapz_w_R Q R QR opsQ opsR opsQR x _ (list_QR x)). Qed.
